@@ -261,7 +261,8 @@ def engine_case(draw):
     }
 
 
-def check_engine(ctx: Ctx, inp) -> None:
+def engine_record(inp):
+    """The engine run of the ``engine`` sub-check (also used by C05's attribution sub-check): (record, server)."""
     from vfw.harness import engine_run, loopback
 
     doc = {
@@ -299,7 +300,11 @@ def check_engine(ctx: Ctx, inp) -> None:
 
         return schema.configure(output=OutputConfig(sanitize=False))
 
-    record = engine_run.run_engine(doc, cfg, server, configure=configure)
+    return engine_run.run_engine(doc, cfg, server, configure=configure), server
+
+
+def check_engine(ctx: Ctx, inp) -> None:
+    record, server = engine_record(inp)
     if record.exception:
         ctx.case(classes=["engine-exception"])
         ctx.disagree("engine:exception:" + record.exception.split(":")[0], f"engine run raised {record.exception}", input=inp)
